@@ -675,6 +675,20 @@ impl RoomAuthorisations {
                                     ));
                                 }
                                 for edge_deletion in &entity_to_mutate.edge_deletions {
+                                    //peers require the right to mutate every row to remove an edge created by someone else
+                                    if !edge_deletion.verifying_key.eq(verifying_key)
+                                        && !room.can(
+                                            verifying_key,
+                                            &to_insert.entity,
+                                            now,
+                                            &RightType::MutateAll,
+                                        )
+                                    {
+                                        return Err(Error::AuthorisationRejected(
+                                            to_insert.entity.clone(),
+                                            base64_encode(room_id),
+                                        ));
+                                    }
                                     let log = EdgeDeletionEntry::build(
                                         room.id,
                                         edge_deletion,
@@ -704,6 +718,20 @@ impl RoomAuthorisations {
                                     ));
                                 }
                                 for edge_deletion in &entity_to_mutate.edge_deletions {
+                                    //peers require the right to mutate every row to remove an edge created by someone else
+                                    if !edge_deletion.verifying_key.eq(verifying_key)
+                                        && !room.can(
+                                            verifying_key,
+                                            &to_insert.entity,
+                                            now,
+                                            &RightType::MutateAll,
+                                        )
+                                    {
+                                        return Err(Error::AuthorisationRejected(
+                                            to_insert.entity.clone(),
+                                            base64_encode(room_id),
+                                        ));
+                                    }
                                     let log = EdgeDeletionEntry::build(
                                         room.id,
                                         edge_deletion,
